@@ -17,13 +17,13 @@
   (`GapThresholds τ`; `τ = 2⁻¹³` does with the defaults: cholesky compares SQUARED `S`-norms with
   `s_tol = 2⁻²⁶`, hence `s_tol ≤ τ²`).
 
-  What is NOT covered: svd (its first-stage premise is `Svd.Unambiguous tol W` on the singular values
-  `Svd.decompose` returns — the only field of `SvdCert` that is not proved, `C01_svd_decompose_svdcert`; the
-  acceptance of its subset test under the same margin is `C20_svd_subset_refusal` (d)); the case
-  "`S` does not resolve" of the second stages (there the tested norm is exactly 0 in exact
-  arithmetic, which no gap on `A` alone expresses: cholesky/envelope refuse then WITHOUT any
-  second-stage premise — `C02_refusal_chol`/`envCore_refusal` use `GsUnamb`/`GSUnambiguous` only for
-  the converse).
+  What is NOT covered HERE: svd — its first-stage premise is the input-side `SingGap A P τ` (round 7,
+  `Lemmas/Ls/SingGap.lean`, `Props/C01/SvdGap.lean`: `C01_net_of_gap_svd`, `C01_adj_of_gap_svd`; the premise on the
+  returned singular values `Svd.Unambiguous` is derived from it); `RankGap` resp. `SingGap` as ONE hypothesis indexed by
+  the algorithm: `InputGap`, `Props/C01/InputGap.lean` (round 8).  The case "`S` does not resolve" of the second
+  stages (there the tested norm is exactly 0 in exact arithmetic, which no gap on `A` alone expresses:
+  cholesky/envelope refuse then WITHOUT any second-stage premise) is covered by the dichotomy `SDich A S τ`
+  (`Lemmas/Ls/SvdGapRefusal.lean`, `Props/C02SvdGap.lean`: `C02_four_answered_iff_resolves`).
 -/
 import Gama.Lemmas.Ls.Gap2Facade
 import Gama.Lemmas.Ls.ComposeJointEnvSolveExample
@@ -325,8 +325,10 @@ example (alg : Alg) (halg : alg ≠ .svd) (a : Answer ℝ) (hs : adjSolve alg pR
 /-- the hypothesis of `C01_net_unambiguous_of_gap` / `C01_net_of_gap` in the shape `LocalNetwork` needs it
     (`P = m0²·Pc`) is satisfiable: the matrices of `Ex.pR` with `m0 = 1`, `Pc = 1`.  The other
     hypotheses (`hdim`, `RowsOK`, `m0 ≠ 0`, `Σ·Pc = 1`, `RegListOK`) are those of `C01_net_cholesky` /
-    `C01_net_envelope`, witnessed by `Ex.npQ` in `Props/C01/NetFacade.lean` (over ℚ; an evaluated
-    `NetProblem ℝ` is NOT given: `Cov.activeCovOf` does not reduce over ℝ) -/
+    `C01_net_envelope`, witnessed by `Ex.npQ` in `Props/C01/NetFacade.lean` over ℚ and — since round 7 — by the
+    evaluated `Ex.npR : NetProblem ℝ` (`Lemmas/Ls/NetFacadeReal.lean`), on which `RankGap` in this very shape is
+    PROVED and `C01_net_of_gap` APPLIED: `Props/C01/NetWitness.lean` (`C01_net_rankgap_witness`,
+    `C01_net_of_gap_witness`); one-hypothesis form for all four algorithms: `Props/C01/InputGap.lean`) -/
 example : RankGap pR.A (((1 : ℝ) * 1) • (1 : Matrix (Fin pR.m) (Fin pR.m) ℝ)) pR.S (1 / 2 : ℝ) := by
   rw [mul_one, one_smul]
   exact C01_rankgap_witness.1
